@@ -103,3 +103,38 @@ Example ex_old_never_ad_refuted :
   x_path x_old = PFallback /\ x_reply x_old = Some (mk_reply false 0 true [] [])
   /\ x_path x_now = PFallback /\ x_reply x_now = Some (mk_reply false 0 false [4] []).
 Proof. repeat split; reflexivity. Qed.
+
+(* a legal prefix whose host part is not zero (never produced by ParseCIDR, still handled) *)
+Example ex_legal_unmasked :
+  let p := mk_net [32; 1; 13; 184; 1; 34; 7; 7; 7; 7; 7; 7; 7; 7; 7; 7] 48 16 in
+  legal_prefix p /\ masked p = false /\ embed p ex_v4 = embed ex_p48 ex_v4
+  /\ extract cur p (embed p ex_v4) = Some ex_v4.
+Proof. repeat split; reflexivity. Qed.
+
+(* an alias chain of length three ending at the A records' owner *)
+Example ex_alias_chain :
+  let ans := [RCNAME (bs "h.ex.t.") 300 (bs "c0.u."); RCNAME (bs "C0.u.") 5 (bs "c1.u."); RDNAME (bs "u.") 9 (bs "v.");
+              RCNAME (bs "c1.u.") 900 (bs "c1.v."); RA (bs "c1.v.") 120 [192; 0; 9; 1]] in
+  alias_chain (bs "h.ex.t.") (filter is_chain ans) (bs "c1.v.")
+  /\ x_path (serve cur ad_witness_cf ad_witness_q (Some (ex_down, 0)) false (QResp (mk_msg false 1 0 false None ans []))) = PSynth.
+Proof.
+  split; [|reflexivity]. cbn [filter is_chain].
+  apply ac_cname; [reflexivity|]. apply ac_cname; [reflexivity|]. apply ac_dname. apply ac_cname; [reflexivity|].
+  apply ac_end. reflexivity.
+Qed.
+
+Example ex_wire :
+  x_path (serve_wire ad_witness_cf ad_witness_q (Some (ex_down, 0)) (SubWrite ttl_witness_a 0)) = PSynth
+  /\ x_path (serve_wire ad_witness_cf ad_witness_q (Some (ex_down, 0)) (SubWrite ttl_witness_a 2)) = PLocalFail
+  /\ x_path (serve_wire ad_witness_cf ad_witness_q (Some (ex_down, 0)) SubNothing) = PFallback.
+Proof. repeat split; reflexivity. Qed.
+
+(* the byte-range hypotheses are about the model's [N], not about Go: without
+   them a "byte" 288 = 256 + 32 passes the masked comparison with 32 *)
+Example ex_bytes_ok_needed :
+  let a := [288; 1; 13; 184; 1; 34; 192; 0; 0; 2; 33; 0; 0; 0; 0; 0] in
+  extract cur ex_p48 a = Some ex_v4 /\ a <> embed ex_p48 ex_v4 /\ ~ bytes_ok a.
+Proof.
+  repeat split; try reflexivity; try discriminate.
+  intros H. inversion H as [|? ? B _]. cbv in B. discriminate.
+Qed.
